@@ -476,6 +476,198 @@ def rule_contr(repo, tier):
     return res
 
 
+# ---------------------------------------------------------------- TRIGGS: the correction in the abstraction "along R / across R"
+
+class _S(float):
+    '''per-residual scalar'''
+
+
+class _V:
+    '''c * R'''
+    def __init__(self, c): self.c = c
+
+
+class _M:
+    '''(a I + b P) J with P = R R^T / |R|^2 (P P = P)'''
+    def __init__(self, a, b): self.a, self.b = a, b
+
+
+class _Row:
+    '''k * R^T J (the residual contracted with the Jacobian)'''
+    def __init__(self, k): self.k = k
+
+
+def _triggs_eval(f, X, G1, G2):
+    """abstract evaluation of the straight-line body of Triggs.forward at one point (x, rho', rho'') on the branch of the mask (x != 0, rho'' > 0).  Values: scalars
+    per residual, multiples c R of the residual, operators (a I + b P) J applied to the Jacobian.  Indexing / view / expand / unsqueeze do not change the class of a
+    value.  Anything else raises AnalysisError."""
+    import math
+    env = {}
+    pos = f.pos_params
+    env[pos[1]] = _V(1.0)
+    env[pos[2]] = _M(1.0, 0.0)
+    SHAPEY = {'unsqueeze', 'squeeze', 'expand_as', 'expand', 'view', 'view_as', 'reshape', 'clone', 'contiguous', 'detach', 'to', 'type_as', 'flatten'}
+
+    def ev(e):
+        if isinstance(e, ast.Constant) and isinstance(e.value, (int, float)) and not isinstance(e.value, bool):
+            return _S(e.value)
+        if isinstance(e, ast.Name):
+            if e.id not in env:
+                raise AnalysisError('C09.TRIGGS: `%s` is read before the evaluator bound it' % e.id)
+            return env[e.id]
+        if isinstance(e, ast.Tuple):
+            return tuple(ev(x) for x in e.elts)
+        if isinstance(e, ast.Subscript):
+            b = ev(e.value)
+            if isinstance(b, tuple) and isinstance(e.slice, ast.Constant) and isinstance(e.slice.value, int):
+                return b[e.slice.value]
+            return b
+        if isinstance(e, ast.UnaryOp) and isinstance(e.op, ast.USub):
+            v = ev(e.operand)
+            return _S(-v) if isinstance(v, _S) else _V(-v.c) if isinstance(v, _V) else _M(-v.a, -v.b)
+        if isinstance(e, ast.BinOp):
+            l, r = ev(e.left), ev(e.right)
+            if isinstance(e.op, (ast.Add, ast.Sub)):
+                sg = 1.0 if isinstance(e.op, ast.Add) else -1.0
+                if isinstance(l, _S) and isinstance(r, _S):
+                    return _S(l + sg * r)
+                if isinstance(l, _V) and isinstance(r, _V):
+                    return _V(l.c + sg * r.c)
+                if isinstance(l, _M) and isinstance(r, _M):
+                    return _M(l.a + sg * r.a, l.b + sg * r.b)
+            elif isinstance(e.op, ast.MatMult):
+                # c R^T (a I + b P) J = c (a + b) R^T J ;  (c R)(k R^T J) = c k |R|^2 P J
+                if isinstance(l, _V) and isinstance(r, _M):
+                    return _Row(l.c * (r.a + r.b))
+                if isinstance(l, _V) and isinstance(r, _Row):
+                    return _M(0.0, l.c * r.k * X)
+            elif isinstance(e.op, ast.Mult):
+                if isinstance(l, _S) and isinstance(r, _S):
+                    return _S(l * r)
+                for s, o in ((l, r), (r, l)):
+                    if isinstance(s, _S) and isinstance(o, _Row):
+                        return _Row(s * o.k)
+                    if isinstance(s, _S) and isinstance(o, _V):
+                        return _V(s * o.c)
+                    if isinstance(s, _S) and isinstance(o, _M):
+                        return _M(s * o.a, s * o.b)
+            elif isinstance(e.op, ast.Div):
+                if isinstance(r, _S):
+                    if r == 0:
+                        raise ZeroDivisionError
+                    return _S(l / r) if isinstance(l, _S) else _V(l.c / r) if isinstance(l, _V) else _M(l.a / r, l.b / r)
+            elif isinstance(e.op, ast.Pow) and isinstance(l, _S) and isinstance(r, _S):
+                return _S(l ** r)
+            raise AnalysisError('C09.TRIGGS: cannot evaluate `%s` in the along-R abstraction' % src(e)[:60])
+        if isinstance(e, ast.Call):
+            fn = dotted(e.func) or ''
+            if isinstance(e.func, ast.Attribute):
+                m = e.func.attr
+                if m in SHAPEY:
+                    return ev(e.func.value)
+                if m in ('sqrt', 'clamp', 'clamp_min', 'abs', 'square', 'reciprocal', 'neg') and not fn.startswith('torch.'):
+                    v = ev(e.func.value)
+                    if isinstance(v, _S):
+                        if m == 'sqrt':
+                            return _S(math.sqrt(v))
+                        if m in ('clamp', 'clamp_min'):
+                            lo = next((ev(k.value) for k in e.keywords if k.arg == 'min'), ev(e.args[0]) if e.args else None)
+                            hi = next((ev(k.value) for k in e.keywords if k.arg == 'max'), ev(e.args[1]) if len(e.args) > 1 else None)
+                            w = float(v)
+                            w = max(w, lo) if lo is not None else w
+                            w = min(w, hi) if hi is not None else w
+                            return _S(w)
+                        return _S({'abs': abs(v), 'square': v * v, 'reciprocal': 1 / v, 'neg': -v}[m])
+            if fn in ('torch.sqrt',) and len(e.args) == 1 and isinstance(ev(e.args[0]), _S):
+                return _S(math.sqrt(ev(e.args[0])))
+            if fn == 'torch.einsum' and len(e.args) == 4 and isinstance(e.args[0], ast.Constant):
+                spec = str(e.args[0].value).replace(' ', '')
+                a, b, c = ev(e.args[1]), ev(e.args[2]), ev(e.args[3])
+                ins, out = spec.split('->')
+                i1, i2, i3 = [t.replace('...', '') for t in ins.split(',')]
+                out = out.replace('...', '')
+                # v1_d v2_k M_kl -> dl : (c1 R)(c2 R)^T (a I + b P) J = c1 c2 |R|^2 (a + b) P J
+                if isinstance(a, _V) and isinstance(b, _V) and isinstance(c, _M) and len(i1) == 1 and len(i2) == 1 and len(i3) == 2 and i3[0] == i2 and out == i1 + i3[1] and i1 != i2:
+                    return _M(0.0, a.c * b.c * X * (c.a + c.b))
+            raise AnalysisError('C09.TRIGGS: cannot evaluate the call `%s` in the along-R abstraction' % src(e)[:60])
+        raise AnalysisError('C09.TRIGGS: cannot evaluate `%s` in the along-R abstraction' % src(e)[:60])
+
+    def bind(t, v):
+        if isinstance(t, ast.Name):
+            env[t.id] = v
+        elif isinstance(t, ast.Subscript) and isinstance(t.value, ast.Name):
+            env[t.value.id] = v                      # masked store: the evaluation follows the masked branch
+        else:
+            raise AnalysisError('C09.TRIGGS: cannot bind `%s`' % src(t)[:40])
+    mask_seen = False
+    for st in f.node.body:
+        if isinstance(st, ast.Expr) and isinstance(st.value, ast.Constant):
+            continue
+        if isinstance(st, ast.Return):
+            v = ev(st.value)
+            if not (isinstance(v, tuple) and len(v) == 2):
+                raise AnalysisError('C09.TRIGGS: Triggs.forward no longer returns the pair (residual, Jacobian)')
+            return v
+        if isinstance(st, ast.AugAssign) and isinstance(st.op, (ast.Add, ast.Sub, ast.Mult, ast.Div)):
+            load = ast.parse(src(st.target), mode='eval').body
+            bind(st.target, ev(ast.BinOp(left=load, op=st.op, right=st.value)))
+            continue
+        if not (isinstance(st, ast.Assign) and len(st.targets) == 1):
+            raise AnalysisError('C09.TRIGGS: statement `%s` of Triggs.forward is outside the straight-line form the evaluator reads' % src(st)[:50])
+        t, v = st.targets[0], st.value
+        if isinstance(v, ast.Call) and isinstance(v.func, ast.Attribute) and v.func.attr == 'compute_grads' and isinstance(t, ast.Tuple) and len(t.elts) == 3:
+            for n, val in zip(t.elts, (X, G1, G2)):
+                env[n.id] = _S(val)
+            continue
+        # the mask itself (comparisons / boolean algebra) is not a value of the abstraction
+        if any(isinstance(n, ast.Compare) for n in ast.walk(v)):
+            if isinstance(t, ast.Name):
+                env[t.id] = None
+                mask_seen = True
+                continue
+        val = ev(v)
+        if isinstance(t, ast.Tuple):
+            if not (isinstance(val, tuple) and len(val) == len(t.elts)):
+                raise AnalysisError('C09.TRIGGS: cannot unpack `%s`' % src(st)[:50])
+            for tt, vv in zip(t.elts, val):
+                bind(tt, vv)
+        else:
+            bind(t, val)
+    raise AnalysisError('C09.TRIGGS: Triggs.forward has no return')
+
+
+@guarded
+def rule_triggs(repo, tier):
+    """The three identities that make (R', J') the Triggs correction, decided in the abstraction in which every quantity of forward() is a scalar per residual, a
+    multiple c R of the residual, or an operator (a I + b P) J on the Jacobian (P the projector on R): with R' = c R, J' = (a I + b P) J
+        J'^T R' = c (a + b) J^T R                     must be rho' J^T R            (the descent direction is the gradient of the robust loss)
+        J'^T J' = J^T (a^2 (I - P) + (a + b)^2 P) J   must be J^T (rho' I + 2 rho'' R R^T) J = J^T (rho' (I - P) + (rho' + 2 rho'' |R|^2) P) J
+    i.e. c (a + b) = rho', a^2 = rho', (a + b)^2 = rho' + 2 rho'' |R|^2 - three polynomial identities in (|R|^2, rho', rho''), evaluated on a grid of the region the
+    masked branch covers (|R|^2 > 0, rho' > 0, rho'' > 0).  The source is read, never run: the evaluator interprets the statements of forward() over these three
+    classes of values."""
+    res = RuleResult('C09.TRIGGS', 'Triggs.forward on the masked branch (|R| != 0, rho\'\' > 0), in the along-R / across-R abstraction R\' = c R, J\' = (a I + b P) J: '
+                     'c (a + b) = rho\' (gradient of the robust loss), a^2 = rho\' and (a + b)^2 = rho\' + 2 rho\'\' |R|^2 (Triggs Gauss-Newton Hessian), on a grid of '
+                     '(|R|^2, rho\', rho\'\')', floor=27)
+    f = repo.func(COR, 'Triggs.forward')
+    bad = {}
+    for X in (0.2, 1.0, 4.0):
+        for G1 in (0.3, 1.0, 2.5):
+            for G2 in (0.1, 0.7, 3.0):
+                r, j = _triggs_eval(f, X, G1, G2)
+                if not (isinstance(r, _V) and isinstance(j, _M)):
+                    raise AnalysisError('C09.TRIGGS: the returned pair is not (multiple of R, operator on J) in the abstraction')
+                grad, across, along = r.c * (j.a + j.b), j.a * j.a, (j.a + j.b) ** 2
+                ok = [abs(grad - G1) < 1e-9 * max(1, G1), abs(across - G1) < 1e-9 * max(1, G1), abs(along - (G1 + 2 * G2 * X)) < 1e-9 * max(1, G1 + 2 * G2 * X)]
+                res.inst({'|R|^2': X, "rho'": G1, "rho''": G2, 'c(a+b)': round(grad, 9), 'a^2': round(across, 9), '(a+b)^2': round(along, 9), 'identities hold': all(ok)}, (X, G1, G2))
+                for k, name in zip(ok, ('gradient c (a + b) = rho\'', 'Hessian across R: a^2 = rho\'', 'Hessian along R: (a + b)^2 = rho\' + 2 rho\'\' |R|^2')):
+                    if not k:
+                        bad.setdefault(name, (X, G1, G2, grad, across, along))
+    for name, (X, G1, G2, grad, across, along) in bad.items():
+        res.add(Finding('C09.TRIGGS', f, 'Triggs.forward violates the identity "%s" on the masked branch, e.g. at |R|^2 = %g, rho\' = %g, rho\'\' = %g: c (a + b) = %.6g, '
+                        'a^2 = %.6g, (a + b)^2 = %.6g (wanted %g, %g, %g)' % (name, X, G1, G2, grad, across, along, G1, G1, G1 + 2 * G2 * X), construct='triggs identity|' + name))
+    return res
+
+
 @guarded
 def rule_grad2(repo, tier):
     """Triggs needs rho'' = d(rho')/dx by differentiating the graph of rho'.  A kernel with constant slope (Scale, any linear user kernel, Huber
@@ -1051,7 +1243,7 @@ def rule_form(repo, tier):
 
 def _rules_core(repo, tier):
     return [rule_guard(repo, tier), rule_kind(repo, tier)] + rule_masks(repo, 'C09.MP', 'C09.GD', [(KER, 'Huber.forward')], floor=1) + \
-        [rule_unit(repo, tier), rule_sel_axis(repo, tier), rule_contr(repo, tier), rule_sing(repo, tier), rule_grad2(repo, tier), rule_div(repo, tier),
+        [rule_unit(repo, tier), rule_sel_axis(repo, tier), rule_contr(repo, tier), rule_triggs(repo, tier), rule_sing(repo, tier), rule_grad2(repo, tier), rule_div(repo, tier),
          rule_pure9(repo, tier), rule_xdef(repo, tier), rule_defcorr(repo, tier), rule_form(repo, tier)]
 
 
@@ -1062,7 +1254,7 @@ def rules(repo, tier):
     from ..callsig import rule_callsig
     from ..docsig import rule_docsig
     from ..axisdefault import rule_axisdefault
-    return list(_rules_core(repo, tier)) + [rule_memo(repo, 'C09.MEMO', 'history independence: nothing computed from the contents of a tensor argument is kept '
+    return list(_rules_core(repo, tier)) + __import__('sa.core', fromlist=['x']).reid([__import__('sa.rules.c08', fromlist=['x']).rule_rej_exc_strat(repo, tier), __import__('sa.rules.c08', fromlist=['x']).rule_ts(repo, tier)], 'C09') + [rule_memo(repo, 'C09.MEMO', 'history independence: nothing computed from the contents of a tensor argument is kept '
                                                       'under the identity, address or version of that tensor, in module-level storage, or published from a generator '
                                                       'before it is complete - a later call with the same object and other contents must not be answered from it',
                                                       ['pypose.optim.corrector', 'pypose.optim.kernel', 'pypose.optim.optimizer'], floor=3),
